@@ -116,9 +116,14 @@ with SqliteImpl.impl_store.impl_manager as impl:
     @impl(ops.round)
     def _round(x, decimals):
         if decimals >= 0:
-            return sqa.func.ROUND(x, decimals, type_=x.type)
-        # For some reason SQLite doesn't like negative decimals values
-        return sqa.func.ROUND(x / (10**-decimals), type_=x.type) * (10**-decimals)
+            res = sqa.func.ROUND(x, decimals, type_=x.type)
+        else:
+            # For some reason SQLite doesn't like negative decimals values
+            res = sqa.func.ROUND(x / (10**-decimals), type_=x.type) * (10**-decimals)
+        if isinstance(x.type, sqa.Integer):
+            # ROUND returns a REAL also for an integer
+            res = sqa.cast(res, x.type)
+        return res
 
     @impl(ops.str_starts_with)
     def _str_starts_with(x, y):
